@@ -26,4 +26,39 @@ structure Site where
   kind : TestKind
 deriving DecidableEq, Repr
 
+/-- How a site of the generator code makes (or reads) an exception value. -/
+inductive ExcCtor
+  /-- `exceptionNew(T, Tuple{x})`: instance whose args are the 1-tuple of the value -/
+  | newTuple1
+  /-- `exceptionNew(T, xs)` with `xs` a Tuple variable: the value IS the args tuple -/
+  | newArgs
+  /-- `exceptionNew(T, nil)` -/
+  | newNil
+  /-- `ExceptionNewf(T, format, …)`: instance with the message as only argument -/
+  | newf
+  /-- `return …, T`: the class value itself is the error -/
+  | bareType
+  /-- `resume(nil, e)`: an existing exception object is handed on as it is -/
+  | passExc
+  /-- a composite literal `&Exception{…}` / `ExceptionInfo{…}` -/
+  | literal
+  /-- `stopIterationValue(err)` -/
+  | readValue
+  /-- `return args[0]` -/
+  | readArg0
+  /-- `MakeException(x)`: an instance is used as it is, a class is instantiated without arguments -/
+  | makeExc
+  /-- anything else whose name says it makes an exception -/
+  | other
+deriving DecidableEq, Repr, Inhabited
+
+/-- one row of the regenerated table of exception construction sites -/
+structure ExcSite where
+  file : String
+  func : String
+  ord : Nat
+  ctor : ExcCtor
+  form : String
+deriving DecidableEq, Repr
+
 end GPy.C05
